@@ -103,8 +103,12 @@ class Run:
         return any(i.verdict == ERROR for i in self.instances)
 
     def floor(self, rule: str, minimum: int):
-        """Instance floor: fewer recognised instances than confirmed by hand is an analysis error."""
-        self.floors[rule] = minimum
+        """Instance floor (vacuity guard): a rule that recognises (almost) none of the instances confirmed by hand on the
+        reference tree answers ANALYSIS-ERROR instead of passing vacuously.  `minimum` is the count confirmed on the reference
+        tree; the guard trips below a third of it, because refactorings that remove duplication (five copies of a loop
+        become one helper) legitimately shrink the number of textual sites.  What a recogniser cannot classify is reported
+        by the recogniser itself, not through this count."""
+        self.floors[rule] = max(1, minimum // 3)
 
     def remark(self, text: str):
         self.remarks.append(text)
